@@ -9,11 +9,18 @@
 // interrupted procedure or cleaning the partial block up with block.Delete), optionally killed a second
 // time at every operation k2 of the follow-up, and resumed to the end; the invariants are evaluated at
 // every state of those runs as well.
+//
+// Second family (transient failures, fault_test.go): instead of a crash, ONE bucket operation - the k-th of
+// the chain, counted over target and origin bucket, of any kind - fails with an error (not applied |
+// applied but reported failed | listing/stream broken at the end) and the process CONTINUES: the procedure
+// handles the error as it sees fit and returns, then the failed step is retried (or the block is cleaned up)
+// and the chain runs to its end. Same invariants on every state.
 package c28
 
 import (
 	"bytes"
 	"context"
+	"errors"
 	"fmt"
 	"io"
 	"iter"
@@ -48,6 +55,11 @@ type Case struct {
 	DieAt  int `json:"die_at"`  // first crash at this mutating op (1-based), 0 = no crash
 	Follow int `json:"follow"`  // after the first crash: 0 = resume the interrupted step and the rest, 1 = clean up every block with block.Delete, 2 = clean up, then run the whole chain again
 	DieAt2 int `json:"die_at2"` // second crash at this mutating op of the follow-up, 0 = none; then resume
+	// transient-failure family (DieAt == 0): the FailAt-th bucket operation of the chain (1-based, any kind, target and
+	// origin bucket counted together) fails in mode FailMode (see fault_test.go) and the process continues; the step
+	// that returned the error is then handled according to Follow (0 = run it again and go on, 1/2 as above).
+	FailAt   int `json:"fail_at,omitempty"`
+	FailMode int `json:"fail_mode,omitempty"`
 }
 
 type scenario struct {
@@ -65,7 +77,12 @@ var scenarios = []scenario{
 	{"ship-two-blocks-mark-delete", "", []string{"ship2", "mark", "delete"}, false},
 	{"replicate-mark-delete", "", []string{"replicate", "mark", "delete"}, false},
 	{"replicate-over-stale-meta-mark-delete", "stale", []string{"replicate", "mark", "delete"}, false},
+	// only in the transient-failure family (without a failure it equals ship-two-blocks): the shipper option that
+	// makes Sync carry on with the next block after a failed upload.
+	{"ship-two-blocks-out-of-order-allowed-mark-delete", "", []string{"ship2ooo", "mark", "delete"}, false},
 }
+
+const firstFaultOnlyScn = 7 // scenarios from this index on are enumerated in the transient-failure family only
 
 type templates struct {
 	base  string
@@ -127,15 +144,25 @@ type world struct {
 	tgt    *vcrash.Bucket
 	origin *objstore.InMemBucket
 	local  string
+	plan   *faultPlan                  // transient-failure injection shared by both buckets
+	bkt    objstore.Bucket             // tgt behind the fault injector: what the procedures get
+	from   objstore.InstrumentedBucket // origin behind the fault injector
 
 	mu         sync.Mutex
 	step       string
 	delStarted map[string]bool
 	nI1, nI2   int64
 	harness    []string
-	mutsFirst  int // mutating ops attempted on the first bucket
-	mutsSecond int // ... on the bucket after the first restart
+	mutsFirst  int      // mutating ops attempted on the first bucket
+	mutsSecond int      // ... on the bucket after the first restart / after the step that failed transiently
+	opsTotal   int      // bucket operations of any kind issued by the procedures (both buckets)
+	opKinds    []string // their kinds, in issue order
+	opsStep1   int      // how many of them the first step of the chain (the publishing procedure) issued
+	nFaultRuns int64    // runs in which the injected failure made a step return an error
+	nFaultSwal int64    // ... in which the step that saw the failure returned nil
 }
+
+var errPanicked = errors.New("c28: code under test panicked")
 
 var logger = log.NewNopLogger()
 
@@ -146,6 +173,7 @@ func (w *world) newTarget(objs map[string][]byte, dieAt int) {
 		w.tgt = vcrash.FromObjects(objs)
 	}
 	w.tgt.DieAtMut = dieAt
+	w.bkt = &faultBucket{p: w.plan, side: "target", b: w.tgt}
 	b := w.tgt
 	b.AfterMut = func(op vcrash.Op) {
 		if w.report {
@@ -267,20 +295,26 @@ func (w *world) noteDeleteStart(id string) {
 	w.mu.Unlock()
 }
 
-func (w *world) exec(step string) error {
+func (w *world) exec(step string) (err error) {
 	ctx := context.Background()
 	w.setStep(step)
+	defer func() {
+		if p := recover(); p != nil {
+			w.violation("panic-during-"+step, fmt.Sprintf("the procedure panicked: %v (injected failure: %q)", p, w.plan.fired1()))
+			err = errPanicked
+		}
+	}()
 	switch step {
 	case "upload":
-		return block.Upload(ctx, logger, w.tgt, filepath.Join(w.tp.dir[w.c.Segs], w.id.String()), metadata.NoneFunc,
+		return block.Upload(ctx, logger, w.bkt, filepath.Join(w.tp.dir[w.c.Segs], w.id.String()), metadata.NoneFunc,
 			objstore.WithUploadConcurrency(w.c.Conc))
-	case "ship", "ship2":
+	case "ship", "ship2", "ship2ooo":
 		if w.local == "" {
 			w.local = w.tp.tmp()
 			if err := copyDir(w.tp.dir[w.c.Segs], w.local); err != nil {
 				return err
 			}
-			if step == "ship2" {
+			if step != "ship" {
 				if err := copyDir(w.tp.dirB, w.local); err != nil {
 					return err
 				}
@@ -290,24 +324,25 @@ func (w *world) exec(step string) error {
 		if err != nil {
 			return err
 		}
-		s := shipper.New(w.tgt, root,
+		s := shipper.New(w.bkt, root,
 			shipper.WithLogger(logger),
 			shipper.WithLabels(func() labels.Labels { return extLset }),
 			shipper.WithSource(metadata.SidecarSource),
-			shipper.WithUploadConcurrency(w.c.Conc))
+			shipper.WithUploadConcurrency(w.c.Conc),
+			shipper.WithAllowOutOfOrderUploads(step == "ship2ooo"))
 		defer s.Close()
 		_, err = s.Sync(ctx)
 		return err
 	case "replicate":
-		return replicate.VerifReplicateOnce(ctx, logger, objstore.WithNoopInstr(w.origin), w.tgt,
+		return replicate.VerifReplicateOnce(ctx, logger, w.from, w.bkt,
 			labels.Selector{}, []compact.ResolutionLevel{compact.ResolutionLevelRaw}, []int{1}, nil)
 	case "nocompact":
-		return block.MarkForNoCompact(ctx, logger, w.tgt, w.id, metadata.ManualNoCompactReason, "verif", prometheus.NewCounter(prometheus.CounterOpts{}))
+		return block.MarkForNoCompact(ctx, logger, w.bkt, w.id, metadata.ManualNoCompactReason, "verif", prometheus.NewCounter(prometheus.CounterOpts{}))
 	case "mark":
-		return block.MarkForDeletion(ctx, logger, w.tgt, w.id, "verif", prometheus.NewCounter(prometheus.CounterOpts{}))
+		return block.MarkForDeletion(ctx, logger, w.bkt, w.id, "verif", prometheus.NewCounter(prometheus.CounterOpts{}))
 	case "delete":
 		w.noteDeleteStart(w.id.String())
-		return block.Delete(ctx, logger, w.tgt, w.id)
+		return block.Delete(ctx, logger, w.bkt, w.id)
 	case "cleanup":
 		// what BestEffortCleanAbortedPartialUploads / the blocks cleaner do with a block: block.Delete.
 		ids := map[string]bool{}
@@ -325,7 +360,7 @@ func (w *world) exec(step string) error {
 		sort.Strings(sorted)
 		for _, id := range sorted {
 			w.noteDeleteStart(id)
-			if err := block.Delete(ctx, logger, w.tgt, ulid.MustParse(id)); err != nil {
+			if err := block.Delete(ctx, logger, w.bkt, ulid.MustParse(id)); err != nil {
 				return err
 			}
 		}
@@ -334,13 +369,34 @@ func (w *world) exec(step string) error {
 	return fmt.Errorf("unknown step %s", step)
 }
 
+// noteSuccessDespiteFailure: a step saw the injected failure and still returned nil. That is legitimate where the
+// code deliberately ignores an error (directory-marker deletes). The statement does not say what a procedure must
+// return, so this is NOT a violation; for the publishing steps it is recorded when the block is then not visible.
+func (w *world) noteSuccessDespiteFailure(step string) {
+	if !w.report {
+		return
+	}
+	switch step {
+	case "upload", "ship", "ship2", "ship2ooo", "replicate":
+	default:
+		return
+	}
+	if _, ok := w.tgt.Objects()[w.id.String()+"/"+block.MetaFilename]; !ok {
+		w.r.Add("publishing_step_returned_nil_after_failure_but_block_not_visible", 1)
+		w.r.Note("case %+v: %s returned nil although %s failed, and the block has no meta.json in the target (not part of the statement)", w.c, step, w.plan.fired1())
+	}
+}
+
 // run executes the case. With report=false nothing is recorded (used by the generator to count operations).
 func run(r *vlib.R, tp *templates, c Case, report bool) *world {
-	w := &world{r: r, c: c, report: report, tp: tp, scn: scenarios[c.Scn], id: tp.id[c.Segs], delStarted: map[string]bool{}}
+	w := &world{r: r, c: c, report: report, tp: tp, scn: scenarios[c.Scn], id: tp.id[c.Segs], delStarted: map[string]bool{},
+		plan: &faultPlan{failAt: c.FailAt, mode: c.FailMode}}
 	defer func() {
 		if w.local != "" {
 			os.RemoveAll(w.local)
 		}
+		w.opsTotal = w.plan.opCount()
+		w.opKinds = w.plan.kinds
 	}()
 	ctx := context.Background()
 	hasReplicate := false
@@ -356,6 +412,7 @@ func run(r *vlib.R, tp *templates, c Case, report bool) *world {
 			w.harness = append(w.harness, "origin upload: "+err.Error())
 			return w
 		}
+		w.from = &faultBucket{p: w.plan, side: "origin", b: w.origin}
 		if w.scn.pre == "stale" {
 			pre = w.origin.Objects()
 			mn := w.id.String() + "/" + block.MetaFilename
@@ -377,48 +434,87 @@ func run(r *vlib.R, tp *templates, c Case, report bool) *world {
 		}
 	}
 	steps := w.scn.steps
-	crashes := 0
+	events := 0     // crashes and transiently failed steps so far
+	secondBase := 0 // value of the target's mutation counter when the follow-up of the first event started
+	noteEvent := func() {
+		if events == 0 {
+			w.mutsFirst = w.tgt.MutCount()
+		} else if events == 1 {
+			w.mutsSecond = w.tgt.MutCount() - secondBase
+		}
+		events++
+	}
+	cleanedAll := false // the follow-up was "clean every block up" (else the second block of ship2 legitimately stays)
+	follow := func(i int) int {
+		if events == 1 && c.Follow == 1 {
+			steps, i = []string{"cleanup"}, 0
+			cleanedAll = true
+		}
+		if events == 1 && c.Follow == 2 {
+			steps, i = append([]string{"cleanup"}, w.scn.steps...), 0
+		}
+		return i
+	}
 	w.newTarget(pre, c.DieAt)
 	w.setStep("initial")
 	w.check(w.tgt.Objects())
 	for i := 0; i < len(steps); {
+		firedBefore := w.plan.firedCount()
 		err := w.exec(steps[i])
+		if errors.Is(err, errPanicked) {
+			return w
+		}
 		if w.tgt.Dead() {
 			snap := w.tgt.DeathSnapshot()
-			if crashes == 0 {
-				w.mutsFirst = w.tgt.MutCount()
-			} else if crashes == 1 {
-				w.mutsSecond = w.tgt.MutCount()
-			}
-			crashes++
+			noteEvent()
 			next := 0
-			if crashes == 1 {
+			if events == 1 {
 				next = c.DieAt2
 			}
+			secondBase = 0
 			w.newTarget(snap, next)
 			w.setStep("restart")
 			w.check(w.tgt.Objects())
-			if crashes == 1 && c.Follow == 1 {
-				steps, i = []string{"cleanup"}, 0
-			}
-			if crashes == 1 && c.Follow == 2 {
-				steps, i = append([]string{"cleanup"}, w.scn.steps...), 0
-			}
+			i = follow(i)
 			continue // resume: re-run the interrupted step
 		}
+		firedHere := w.plan.firedCount() > firedBefore
+		if err != nil && firedHere {
+			// the injected transient failure made this run of the step fail; the process is alive, the bucket is whatever
+			// the procedure left behind. Next: run the step again (the next iteration of every Thanos loop) or clean up.
+			w.nFaultRuns++
+			noteEvent()
+			if events == 1 {
+				secondBase = w.tgt.MutCount()
+				if c.DieAt2 > 0 {
+					w.tgt.DieAtMut = secondBase + c.DieAt2
+				}
+			}
+			w.setStep("after-failed-" + steps[i])
+			w.check(w.tgt.Objects())
+			i = follow(i)
+			continue
+		}
 		if err != nil {
-			w.harness = append(w.harness, fmt.Sprintf("step %s failed without an injected crash: %v", steps[i], err))
+			w.harness = append(w.harness, fmt.Sprintf("step %s failed without an injected crash or failure: %v", steps[i], err))
 			return w
+		}
+		if firedHere {
+			w.nFaultSwal++
+			w.noteSuccessDespiteFailure(steps[i])
+		}
+		if i == 0 && events == 0 {
+			w.opsStep1 = w.plan.opCount()
 		}
 		i++
 	}
-	if crashes == 0 {
+	if events == 0 {
 		w.mutsFirst = w.tgt.MutCount()
-	} else if crashes == 1 {
-		w.mutsSecond = w.tgt.MutCount()
+	} else if events == 1 {
+		w.mutsSecond = w.tgt.MutCount() - secondBase
 	}
 	if report {
-		if n := len(w.tgt.Objects()); n != 0 && !(w.scn.steps[0] == "ship2" && c.Follow != 1) {
+		if n := len(w.tgt.Objects()); n != 0 && !(strings.HasPrefix(w.scn.steps[0], "ship2") && !cleanedAll) {
 			r.Note("case %+v: %d objects remain after the final delete: %v", c, n, names(w.tgt.Objects()))
 			r.Add("final_state_not_empty", 1)
 		}
@@ -428,6 +524,13 @@ func run(r *vlib.R, tp *templates, c Case, report bool) *world {
 
 func gen(r *vlib.R, tp *templates) iter.Seq[Case] {
 	return func(yield func(Case) bool) {
+		type combo struct {
+			base  Case
+			muts  int
+			kinds []string
+			step1 int
+		}
+		var combos []combo
 		for scn := range scenarios {
 			for segs := 1; segs <= 3; segs++ {
 				concs := []int{1}
@@ -437,21 +540,60 @@ func gen(r *vlib.R, tp *templates) iter.Seq[Case] {
 				if r.Thorough() && scenarios[scn].pre == "" && scenarios[scn].steps[0] != "replicate" {
 					concs = []int{1, 2, 3}
 				}
-				follows := vlib.Pick(r, 1, 2)
 				for _, conc := range concs {
 					base := Case{Scn: scn, Segs: segs, Conc: conc}
 					if !yield(base) {
 						return
 					}
-					n := run(r, tp, base, false).mutsFirst
-					for k := 1; k <= n; k++ {
-						for follow := 0; follow <= follows; follow++ {
-							c := base
-							c.DieAt, c.Follow = k, follow
-							if !yield(c) { // its evaluation also runs every second-level crash k2 (see TestCheck)
-								return
-							}
+					w := run(r, tp, base, false) // dry run: counts the operations of the undisturbed chain
+					combos = append(combos, combo{base, w.mutsFirst, w.opKinds, w.opsStep1})
+				}
+			}
+		}
+		follows := vlib.Pick(r, 1, 2)
+		// transient failure of the k-th bucket operation (any kind, either bucket), process continues
+		for _, cb := range combos {
+			first := scenarios[cb.base.Scn].steps[0]
+			if !r.Thorough() {
+				// quick-tier economy (the shipper cases are fsync bound): the shipper hands the block to the same block.upload
+				// as the "upload" chains, which keep the concurrency dimension; the two-block chains (what is new there is
+				// the second block, and the out-of-order option) with one segment file, ship-one-block keeps 1..3.
+				if (first == "ship" && cb.base.Conc > 1) || (strings.HasPrefix(first, "ship2") && cb.base.Segs > 1) {
+					continue
+				}
+			}
+			for k, kind := range cb.kinds {
+				modes := 1
+				if mode1Applies(kind) {
+					modes = 2
+				}
+				for mode := 0; mode < modes; mode++ {
+					for follow := 0; follow <= follows; follow++ {
+						if follow > 0 && !r.Thorough() && k >= cb.step1 {
+							// quick: "clean the block up instead of retrying" only after a failed publishing step (a failed
+							// mark/delete step followed by block.Delete is nearly the retry)
+							continue
 						}
+						c := cb.base
+						c.FailAt, c.FailMode, c.Follow = k+1, mode, follow
+						if !yield(c) { // thorough: its evaluation also crashes the follow-up at every op k2 (see TestCheck)
+							return
+						}
+					}
+				}
+			}
+		}
+		// crash at the k-th mutating operation, restart
+		for _, cb := range combos {
+			if cb.base.Scn >= firstFaultOnlyScn {
+				continue
+			}
+			for k := 1; k <= cb.muts; k++ {
+				for follow := 0; follow <= follows; follow++ {
+					c := cb.base
+					c.DieAt, c.Follow = k, follow
+					if !yield(c) { // its evaluation also runs every second-level crash k2 (see TestCheck)
+						return
 					}
 				}
 			}
@@ -465,16 +607,19 @@ func TestCheck(t *testing.T) {
 	r.Rule("7 procedure chains (block.Upload | Shipper.Sync with 1 or 2 local blocks | replication into an empty target or over a stale meta.json; " +
 		"then [no-compact mark,] deletion mark, block.Delete; also block.Delete of an unmarked block) x blocks with 1..3 chunk segment files x upload concurrency {1,3}; " +
 		"both invariants evaluated after every applied mutating bucket op; plus: crash at every mutating op k, restart on the death snapshot " +
-		"(resume | clean up with block.Delete), second crash at every op k2 of the follow-up, resume to the end. " +
+		"(resume | clean up with block.Delete), second crash at every op k2 of the follow-up, resume to the end; " +
+		"plus (same chains and the shipper with out-of-order uploads allowed): transient failure of the k-th bucket operation of ANY kind on the target or the origin bucket " +
+		"(upload/delete/get/exists/attributes/iter; not applied | applied but reported failed / listing or stream broken at its end), the process continues, " +
+		"the failed step is run again or the block is cleaned up, chain runs to its end (thorough: plus a crash at every op k2 of that follow-up). " +
 		"non-trivial = distinct strictly intermediate bucket states of a block (objects present, but meta.json absent or deletion running)")
 	r.Assume("object PUT and DELETE are atomic (vcrash model); listing order is that of the in-memory bucket (files before directories); " +
 		"with upload concurrency 3 the interleaving of chunk uploads is whatever the Go scheduler produced (the oracle is order independent)")
 	tp := buildTemplates(t)
 	var harness sync.Map
-	var nI1, nI2 int64
+	var nI1, nI2, nFaultRuns, nFaultSwal int64
 	var mu sync.Mutex
 	forEach(r, gen(r, tp), func(c Case) {
-		if c.Scn < 0 || c.Scn >= len(scenarios) || c.Segs < 1 || c.Segs > 3 {
+		if c.Scn < 0 || c.Scn >= len(scenarios) || c.Segs < 1 || c.Segs > 3 || c.FailAt < 0 {
 			t.Errorf("HARNESS-ERROR bad case %+v", c)
 			return
 		}
@@ -483,7 +628,10 @@ func TestCheck(t *testing.T) {
 		}
 		ws := []*world{run(r, tp, c, true)}
 		r.Sample(c)
-		if c.DieAt > 0 && c.DieAt2 == 0 && !r.Replaying() {
+		if c.FailMode < 0 || c.FailMode > 1 {
+			c.FailMode = 0
+		}
+		if (c.DieAt > 0 || (c.FailAt > 0 && r.Thorough())) && c.DieAt2 == 0 && !r.Replaying() {
 			// second level: kill the follow-up at each of its mutating operations (count known from the run above)
 			for k2 := 1; k2 <= ws[0].mutsSecond; k2++ {
 				c2 := c
@@ -500,16 +648,20 @@ func TestCheck(t *testing.T) {
 			mu.Lock()
 			nI1 += w.nI1
 			nI2 += w.nI2
+			nFaultRuns += w.nFaultRuns
+			nFaultSwal += w.nFaultSwal
 			mu.Unlock()
 		}
 	})
 	r.Set("states_with_meta_checked", nI1)
 	r.Set("states_in_marked_deletion_checked", nI2)
+	r.Set("runs_with_a_step_failed_by_the_injected_transient_failure", nFaultRuns)
+	r.Set("runs_where_the_step_ignored_the_injected_failure", nFaultSwal)
 	harness.Range(func(k, v any) bool {
 		t.Errorf("HARNESS-ERROR %v (case %+v)", k, v)
 		return true
 	})
-	if !r.Replaying() && (nI1 == 0 || nI2 == 0) {
-		t.Errorf("HARNESS-ERROR vacuous: states with meta %d, states in marked deletion %d", nI1, nI2)
+	if !r.Replaying() && (nI1 == 0 || nI2 == 0 || nFaultRuns == 0) {
+		t.Errorf("HARNESS-ERROR vacuous: states with meta %d, states in marked deletion %d, transiently failed steps %d", nI1, nI2, nFaultRuns)
 	}
 }
